@@ -28,6 +28,7 @@ def families(tier):
     yield from G.f7b_traced()
     yield from G.f10_sizes()
     yield from G.f11_definite_assignment()
+    yield from G.f12_evaluation_order()
 
 
 def programs(tier):
